@@ -47,8 +47,12 @@ type StateFile struct {
 	Time time.Time
 	// Format is one of the Fmt* constants; "" picks the stream's default.
 	Format string
-	// Txn > 0 adds the txnMax / txnMaxQueried lines of a minutely state file.
-	TxnMax, TxnMaxQueried int
+	// Txn adds the transaction lines of a minutely state file (osmosis writes 64-bit
+	// txid_current() values; the planet's have been above 2^31 since about 2019).
+	Txn                   bool
+	TxnMax, TxnMaxQueried int64
+	// TxnActive / TxnReady are the txnActiveList / txnReadyList entries (may be empty).
+	TxnActive, TxnReady []int64
 	// YamlSeqSame: the sequence line of a changeset state file repeats the file's own number
 	// (the earliest planet files) instead of being one less (the planet's consistent mistake).
 	YamlSeqSame bool
@@ -275,15 +279,26 @@ func RenderState(stream string, n uint64, st StateFile, current bool) []byte {
 	t := st.Time.UTC()
 	// the comment line is the (later) wall-clock time the file was written at
 	fmt.Fprintf(&b, "#%s\n", t.Add(61*time.Second).Format("Mon Jan 02 15:04:05 UTC 2006"))
-	if st.TxnMax > 0 {
+	if st.Txn {
 		fmt.Fprintf(&b, "txnMaxQueried=%d\n", st.TxnMaxQueried)
 	}
 	fmt.Fprintf(&b, "sequenceNumber=%d\n", n)
 	fmt.Fprintf(&b, "timestamp=%s\n", RenderTime(t, FmtProps))
-	if st.TxnMax > 0 {
-		fmt.Fprintf(&b, "txnReadyList=\ntxnMax=%d\ntxnActiveList=%d\n", st.TxnMax, st.TxnMax-227)
+	if st.Txn {
+		fmt.Fprintf(&b, "txnReadyList=%s\ntxnMax=%d\ntxnActiveList=%s\n", joinInts(st.TxnReady), st.TxnMax, joinInts(st.TxnActive))
 	}
 	return b.Bytes()
+}
+
+func joinInts(xs []int64) string {
+	var b strings.Builder
+	for i, x := range xs {
+		if i > 0 {
+			b.WriteByte(',')
+		}
+		fmt.Fprint(&b, x)
+	}
+	return b.String()
 }
 
 // Gzip compresses a body the way the planet's .osc.gz / .osm.gz files are.
